@@ -205,6 +205,13 @@ def run(pid, tier):
     except Exception as e:
         traces.append([{"ev": "cfg", "words": [], "reserved": [], "clauses": CLAUSES}, {"ev": "exc", "what": "secret stage: %r" % (e,)}])
         meta.append({"cfg": {"stage": "secrets"}, "texts": [None, ("secret-stage", "EXC")]})
+    # the repository's own tests re-run under the recorder: every SensitiveWordAnonymizer.anonymize call they make
+    import c_suite
+    st, sm = c_suite.words_traces(CLAUSES)
+    c_suite.note(ck)
+    ck.notes["repository_test_suite_word_lines"] = sum(1 for t in st for e in t if e["ev"] == "line")
+    traces += st
+    meta += sm
     validate_traces("WordsTrace", "WordsTrace.cfg", traces, max_events_per_shard=3000)
     ck.traces += len(traces)
     ck.events += sum(len(t) for t in traces)
